@@ -394,6 +394,18 @@ def run(prop, tier):
                 runs["raw by fmt alias"] = impl_split(au, noext, cs, fmt="raw")
                 runs["raw by audio_format, conflicting fmt"] = impl_split(au, noext, cs, audio_format="raw", fmt="wav")
                 runs["BufferAudioSource"] = impl_split(au, aio.BufferAudioSource(d, rate, w, ch), cs)
+                # the file that was split a moment ago is replaced in place by this audio, same size and time stamps (cp -p, rsync -t, tar x)
+                for ext, tag in ((".wav", "wav"), (".raw", "raw")):
+                    sp = os.path.join(tmpd, "swap" + ext)
+                    for payload in (bytes(len(d)) if it % 2 else bytes(reversed(d)), d):
+                        if ext == ".wav":
+                            with wave.open(sp, "wb") as f:
+                                f.setframerate(rate); f.setsampwidth(w); f.setnchannels(ch); f.writeframes(payload)
+                        else:
+                            open(sp, "wb").write(payload)
+                        os.utime(sp, (1700000000, 1700000000))
+                        got_sw = impl_split(au, sp, cs)
+                    runs["%s file that replaced, in place with the same size and time stamps, a file split just before" % tag] = got_sw
                 # the five documented positional parameters of split() given positionally (function and method)
                 pp = cs["params"]
                 posargs = (pp["min_dur"], pp["max_dur"], pp["max_silence"], pp["drop_trailing_silence"], pp["strict_min_dur"])
